@@ -14,6 +14,8 @@
      reset, stall, cancel                      -- connection reset, no answer within the client's
                                                   timeout, caller's context cancelled
      hookfail                                  -- the block hook calls FailSync (segmented syncs)
+     hookcancel                                -- the block hook cancels the caller's context (segmented explicit syncs): the
+                                                  segment at hand completes, the next request fails
 
    What the code does on a fault (fetch / fetchBlock / handle / asyncSyncAdChain): the sync ends
    with an error; nothing is committed for the failing request; blocks verified earlier stay;
@@ -43,11 +45,12 @@ VARIABLES cfg,        \* [mode, trigger, seg, faults: Seq of [at, kind]]
           phase,      \* index of the sync being run (Len(faults) + 1 = the clean one)
           pc, b, req, segblocks, segleft,
           over,       \* this sync has failed over to the publisher's second address
+          ctxdead,    \* the caller's context was cancelled by a block hook of this sync
           store,      \* set of [cid, body]
           latest, cached, noPath,
           rep,        \* blocks reported by hooks in the current sync
           log         \* one record per finished sync: what the harness can observe
-vars == <<cfg, phase, pc, b, req, segblocks, segleft, over, store, latest, cached, noPath, rep, log>>
+vars == <<cfg, phase, pc, b, req, segblocks, segleft, over, ctxdead, store, latest, cached, noPath, rep, log>>
 
 Faults == [at : 1..(N + 1), kind : Kinds, k2 : PairKinds \cup {"none"}]      \* k2: what happens to request at + 1
 Configs == {[mode |-> m, trigger |-> t, seg |-> s, addrs |-> a, faults |-> f] :
@@ -59,11 +62,13 @@ Applicable(c) == /\ (c.addrs = 2 => c.mode = "plain")
                    \* a reset connection may be retried by the transport itself, which would consume the next request slot: resets do not pair
                    /\ (c.faults[i].kind = "reset" => c.faults[i].k2 = "none") /\ c.faults[i].k2 # "reset"
                    /\ (c.faults[i].kind = "hookfail" => c.seg > 0)
+                   /\ (c.faults[i].kind = "hookcancel" => c.seg > 0 /\ c.trigger = "explicit" /\ c.faults[i].at > 1 /\ c.faults[i].k2 = "none")
+                   /\ c.faults[i].k2 # "hookcancel"
                    /\ (c.faults[i].kind = "cancel" => c.trigger = "explicit")       \* announce-triggered syncs do not run under the caller's context
                    /\ (c.faults[i].kind \in BodyKinds \cup {"hookfail"} => ~(c.trigger = "explicit" /\ c.faults[i].at = 1))  \* request 1 is the head query
 
 Init == /\ cfg \in {c \in Configs : Applicable(c)}
-        /\ phase = 1 /\ pc = "start" /\ b = 0 /\ req = 0 /\ segblocks = <<>> /\ segleft = 0 /\ over = FALSE
+        /\ phase = 1 /\ pc = "start" /\ b = 0 /\ req = 0 /\ segblocks = <<>> /\ segleft = 0 /\ over = FALSE /\ ctxdead = FALSE
         /\ store = {} /\ latest = 0 /\ cached = FALSE /\ noPath = FALSE /\ rep = <<>> /\ log = <<>>
 
 Clean == phase > Len(cfg.faults)
@@ -80,7 +85,7 @@ Obs(result, evs) == [result |-> result, reported |-> rep, stored |-> StoredCids,
 EndSync(result, evs) ==
   /\ log' = Append(log, Obs(result, evs))
   /\ phase' = phase + 1 /\ pc' = IF phase + 1 > Len(cfg.faults) + 1 THEN "done" ELSE "start"
-  /\ b' = 0 /\ req' = 0 /\ segblocks' = <<>> /\ segleft' = 0 /\ rep' = <<>> /\ over' = FALSE
+  /\ b' = 0 /\ req' = 0 /\ segblocks' = <<>> /\ segleft' = 0 /\ rep' = <<>> /\ over' = FALSE /\ ctxdead' = FALSE
 
 Fail(k) ==    \* the sync ends with an error
   /\ noPath' = (noPath \/ (~FIXED /\ cfg.mode = "plain" /\ k \in {"s404", "s403"}))
@@ -106,28 +111,31 @@ Start ==
                   THEN UNCHANGED <<latest, store, noPath>> /\ EndSync("ok", <<>>)      \* head = latest: nothing to do
                   ELSE /\ req' = 1 /\ b' = N /\ pc' = "fetch" /\ segleft' = cfg.seg /\ segblocks' = <<>>
                        /\ over' = FailsOver(FaultAt(1))        \* the head query was repeated on the second address
-                       /\ UNCHANGED <<phase, store, latest, noPath, rep, log>>
+                       /\ UNCHANGED <<phase, store, latest, noPath, rep, log, ctxdead>>
              ELSE /\ req' = 0 /\ b' = N /\ pc' = "fetch" /\ segleft' = cfg.seg /\ segblocks' = <<>>
-                  /\ UNCHANGED <<phase, store, latest, noPath, rep, log, over>>
+                  /\ UNCHANGED <<phase, store, latest, noPath, rep, log, over, ctxdead>>
   /\ UNCHANGED cfg
 
 (* One block of the walk: local test, else one request whose answer is decided by the fault plan. *)
 Fetch ==
   /\ pc = "fetch" /\ UNCHANGED cfg
   /\ IF Has(b)
-     THEN /\ segblocks' = Append(segblocks, b) /\ pc' = "next" /\ UNCHANGED <<req, store, latest, cached, noPath, rep, log, phase, b, segleft, over>>
-     ELSE LET r == req + 1  k == IF noPath THEN "s400" ELSE FaultAt(r) IN
-          IF k = "ok" \/ k = "hookfail" \/ FailsOver(k)
+     THEN /\ segblocks' = Append(segblocks, b) /\ pc' = "next" /\ UNCHANGED <<req, store, latest, cached, noPath, rep, log, phase, b, segleft, over, ctxdead>>
+     ELSE LET r == req + 1  k == IF ctxdead THEN "cancel" ELSE IF noPath THEN "s400" ELSE FaultAt(r) IN
+          IF k = "ok" \/ k = "hookfail" \/ k = "hookcancel" \/ FailsOver(k)
           THEN /\ store' = store \cup {[cid |-> b, body |-> b]} /\ req' = r
                /\ over' = (over \/ FailsOver(k))          \* the request was repeated on the second address and answered there
                /\ segblocks' = Append(segblocks, b) /\ pc' = "next"
-               /\ UNCHANGED <<latest, cached, noPath, rep, log, phase, b, segleft>>
+               /\ UNCHANGED <<latest, cached, noPath, rep, log, phase, b, segleft, ctxdead>>
           ELSE Fail(k)
 
 (* the hook of the block fetched at request `at` calls FailSync; it takes effect when that segment ends *)
 FailingHook == /\ ~Clean
                /\ \/ cfg.faults[phase].kind = "hookfail" /\ req >= cfg.faults[phase].at
                   \/ cfg.faults[phase].k2 = "hookfail" /\ req >= cfg.faults[phase].at + 1
+
+(* the hook of the block fetched at request `at` cancels the caller's context *)
+CancellingHook == ~Clean /\ cfg.faults[phase].kind = "hookcancel" /\ req >= cfg.faults[phase].at
 
 (* After a block: continue the segment, or end the segment (hooks), or end the sync. *)
 NextBlock ==
@@ -136,7 +144,7 @@ NextBlock ==
          segEnds == cfg.seg > 0 /\ segleft = 1
      IN IF more /\ ~segEnds
         THEN /\ b' = b - 1 /\ segleft' = (IF cfg.seg > 0 THEN segleft - 1 ELSE 0) /\ pc' = "fetch"
-             /\ UNCHANGED <<req, segblocks, store, latest, cached, noPath, rep, log, phase, over>>
+             /\ UNCHANGED <<req, segblocks, store, latest, cached, noPath, rep, log, phase, over, ctxdead>>
         ELSE (* hooks of this segment run now *)
              IF FailingHook
              THEN /\ rep' = <<>>
@@ -144,16 +152,17 @@ NextBlock ==
                   /\ log' = Append(log, [result |-> "error", reported |-> rep \o segblocks, stored |-> StoredCids, latest |-> latest,
                                          events |-> IF cfg.trigger = "announce" THEN <<[cid |-> N, err |-> TRUE, count |-> 0]>> ELSE <<>>, noPath |-> noPath])
                   /\ cached' = (IF cfg.trigger = "announce" THEN FALSE ELSE cached)
-                  /\ phase' = phase + 1 /\ pc' = "start" /\ b' = 0 /\ req' = 0 /\ segblocks' = <<>> /\ segleft' = 0 /\ over' = FALSE
+                  /\ phase' = phase + 1 /\ pc' = "start" /\ b' = 0 /\ req' = 0 /\ segblocks' = <<>> /\ segleft' = 0 /\ over' = FALSE /\ ctxdead' = FALSE
              ELSE IF more
              THEN /\ rep' = rep \o segblocks /\ segblocks' = <<>> /\ b' = b - 1 /\ segleft' = cfg.seg /\ pc' = "fetch"
+                  /\ ctxdead' = (ctxdead \/ CancellingHook)
                   /\ UNCHANGED <<req, store, latest, cached, noPath, log, phase, over>>
              ELSE (* the sync succeeded *)
                   /\ latest' = N /\ UNCHANGED <<store, cached, noPath>>
                   /\ log' = Append(log, [result |-> "ok", reported |-> rep \o segblocks, stored |-> StoredCids, latest |-> N,
                                          events |-> <<[cid |-> N, err |-> FALSE, count |-> Len(rep \o segblocks)]>>, noPath |-> noPath])
                   /\ phase' = phase + 1 /\ pc' = IF phase + 1 > Len(cfg.faults) + 1 THEN "done" ELSE "start"
-                  /\ b' = 0 /\ req' = 0 /\ segblocks' = <<>> /\ segleft' = 0 /\ rep' = <<>> /\ over' = FALSE
+                  /\ b' = 0 /\ req' = 0 /\ segblocks' = <<>> /\ segleft' = 0 /\ rep' = <<>> /\ over' = FALSE /\ ctxdead' = FALSE
 
 Next == Start \/ Fetch \/ NextBlock
 Spec == Init /\ [][Next]_vars
